@@ -25,7 +25,7 @@ var eff *oracle.Server
 
 func TestMain(m *testing.M) {
 	kf, _ = known.Load(ev.KnownFile())
-	rec.Rule("generated POM lineages (root + 0-4 ancestors + 0-3 imported BOMs with 0-2 ancestors each, BOMs importing BOMs) rendered to pom.xml text; both sides read the same text. Go side: encoding/xml into maven.Project, MergeProfiles(JDK 11.0.8, the library's OS settings) on every level, MergeParent up the chain, Interpolate, ProcessDependencies whose callback applies the same pipeline to the imported BOM (as examples/go/maven_parse_resolve does). Oracle: maven-model-builder 3.8.7 in a JVM started with the same os.name/arch/version and java.version=11.0.8, in-memory ModelResolver, effective model's dependencies and dependencyManagement in order. Comparison field by field (group, artifact, version, type, classifier, scope, optional, exclusions, order) after Maven's default injections (type jar; scope compile on dependencies; optional empty = false); entries Maven leaves with an unresolved ${...} are dropped by the library by documented design and are removed from Maven's list before comparing. Lineages on which Maven reports an ERROR are outside the domain (counted). Termination clause: interpolation over arbitrary property tables (self-reference, cycles, undefined keys, unterminated ${) returns and leaves unresolved placeholders in place, checked against a fix-point reference. One evaluation = one lineage (or one property table). Non-trivial lineage: >= 1 ancestor and (a property defined at two levels, or an active non-default profile, or an import, or a duplicate declaration). Distinct = distinct rendered lineage.")
+	rec.Rule("generated POM lineages (root + 0-4 ancestors + 0-3 imported BOMs with 0-2 ancestors each, BOMs importing BOMs) rendered to pom.xml text; both sides read the same text. Go side: encoding/xml into maven.Project, MergeProfiles(JDK 11.0.8, the library's OS settings) on every level, MergeParent up the chain, Interpolate, ProcessDependencies whose callback applies the same pipeline to the imported BOM (as examples/go/maven_parse_resolve does). Oracle: maven-model-builder 3.8.7 in a JVM started with the same os.name/arch/version and java.version=11.0.8, in-memory ModelResolver, effective model's dependencies and dependencyManagement in order. Comparison field by field (group, artifact, version, type, classifier, scope, optional, exclusions, order) after Maven's default injections (type jar; scope compile on dependencies; optional empty = false); entries Maven leaves with an unresolved ${...} are dropped by the library by documented design and are removed from Maven's list before comparing. Lineages on which Maven reports an ERROR are outside the domain (counted). Termination clause: interpolation over arbitrary property tables (self-reference, cycles, undefined keys, unterminated ${) returns and leaves unresolved placeholders in place, checked against a fix-point reference. One evaluation = one lineage (or one property table). Non-trivial lineage: >= 1 ancestor and (a property defined at two levels, or an active non-default profile, or an import, or a duplicate declaration). Distinct = distinct rendered lineage. The optional flag is compared as the boolean each side makes of it; decoded POMs are kept per case and BOMs may share a parent; check merge-isolation: one decoded parent merged into two children (interleaved or not) gives each child what it gets with a parent decoded for it alone.")
 	code := m.Run()
 	if eff != nil {
 		eff.Close()
